@@ -11,7 +11,7 @@ mod v_iface_frag {
     use crate::verif_common::*;
 
     type Key = u16;
-    /// reassembly buffer size of the build configuration (256 in KI4, 64 in KI4r)
+    /// reassembly buffer size of the build configuration (256 in KI4)
     const B: usize = crate::config::REASSEMBLY_BUFFER_SIZE;
 
     /// the fragment branch of `process_ipv4` (src/iface/interface/ipv4.rs): `None` = nothing delivered
@@ -130,53 +130,40 @@ mod v_iface_frag {
         kani::cover!(!delivered && n >= 1 && !post.verif_present(0), "fragment arrived while the first byte is still missing");
     }
 
-    // @harness props=C12 cfg=KI4r tcfg=KI4 tier=q to=900 mem=8 unwind=12 opts=nomem covers=3 funcs=PacketAssembler::set_total_size;PacketAssembler::add;PacketAssembler::assemble;PacketAssembler::is_complete;PacketAssembler::reset;Assembler::add;Assembler::peek_front bounds=1-induction_step:_datagram_of_any_length_<=_reassembly_buffer_(64_quick,_256_thorough);_assembler_in_any_state_of_<=_4_recorded_ranges;_fragment_of_8_bytes_at_any_8-aligned_offset
+    // @harness props=C12 cfg=KI4 tier=q to=900 mem=8 unwind=12 opts=nomem covers=3 funcs=PacketAssembler::set_total_size;PacketAssembler::add;PacketAssembler::assemble;PacketAssembler::is_complete;PacketAssembler::reset;Assembler::add;Assembler::peek_front bounds=1-induction_step:_datagram_of_any_length_<=_256;_assembler_in_any_state_of_0..=3_recorded_ranges_(API_prefix);_fragment_of_8_bytes_at_any_8-aligned_offset,_consistent_with_the_datagram
     #[kani::proof]
-    pub(crate) fn ipv4_reasm_step_8() {
-        reasm_step::<8, 0, 4>();
-    }
-
-    // @harness props=C12 cfg=KI4r tcfg=KI4 tier=q to=900 mem=8 unwind=12 opts=nomem covers=3 funcs=PacketAssembler::set_total_size;PacketAssembler::add;PacketAssembler::assemble;PacketAssembler::is_complete;PacketAssembler::reset;Assembler::add;Assembler::peek_front bounds=1-induction_step:_datagram_of_any_length_<=_reassembly_buffer_(64_quick,_256_thorough);_assembler_in_any_state_of_<=_4_recorded_ranges;_fragment_of_24_bytes_at_any_8-aligned_offset
-    #[kani::proof]
-    pub(crate) fn ipv4_reasm_step_24() {
-        reasm_step::<24, 0, 4>();
-    }
-
-    // @harness props=C12 cfg=KI4r tcfg=KI4 tier=q to=900 mem=8 unwind=12 opts=nomem covers=3 funcs=PacketAssembler::set_total_size;PacketAssembler::add;PacketAssembler::assemble;PacketAssembler::is_complete;PacketAssembler::reset;Assembler::add;Assembler::peek_front bounds=1-induction_step:_datagram_of_any_length_<=_reassembly_buffer_(64_quick,_256_thorough);_assembler_in_any_state_of_<=_4_recorded_ranges;_last_fragment_of_3_bytes_at_any_8-aligned_offset
-    #[kani::proof]
-    pub(crate) fn ipv4_reasm_step_3() {
-        reasm_step::<3, 0, 4>();
-    }
-
-
-    // @harness props=C12 cfg=KI4r tier=q to=900 mem=8 unwind=12 opts=nomem,kissat covers=3 funcs=x bounds=experiment
-    #[kani::proof]
-    pub(crate) fn ipv4_reasm_x1() {
-        reasm_step::<8, 0, 4>();
-    }
-
-    // @harness props=C12 cfg=KI4r tier=q to=900 mem=8 unwind=12 opts=nomem covers=3 funcs=x bounds=experiment
-    #[kani::proof]
-    pub(crate) fn ipv4_reasm_x2() {
+    pub(crate) fn ipv4_reasm_step_8_n03() {
         reasm_step::<8, 0, 3>();
     }
 
-    // @harness props=C12 cfg=KI4r tier=q to=900 mem=8 unwind=12 opts=nomem covers=3 funcs=x bounds=experiment
+    // @harness props=C12 cfg=KI4 tier=q to=900 mem=8 unwind=12 opts=nomem covers=3 funcs=PacketAssembler::set_total_size;PacketAssembler::add;PacketAssembler::assemble;PacketAssembler::is_complete;PacketAssembler::reset;Assembler::add;Assembler::peek_front bounds=1-induction_step:_datagram_of_any_length_<=_256;_assembler_in_any_state_of_4_recorded_ranges_(assembler_full:_ASSEMBLER_MAX_SEGMENT_COUNT=4)_(API_prefix);_fragment_of_8_bytes_at_any_8-aligned_offset,_consistent_with_the_datagram
     #[kani::proof]
-    pub(crate) fn ipv4_reasm_x3() {
+    pub(crate) fn ipv4_reasm_step_8_full() {
         reasm_step::<8, 4, 4>();
     }
 
-    // @harness props=C12 cfg=KI4 tier=q to=900 mem=8 unwind=12 opts=nomem covers=3 funcs=x bounds=experiment
+    // @harness props=C12 cfg=KI4 tier=q to=900 mem=8 unwind=12 opts=nomem covers=3 funcs=PacketAssembler::set_total_size;PacketAssembler::add;PacketAssembler::assemble;PacketAssembler::is_complete;PacketAssembler::reset;Assembler::add;Assembler::peek_front bounds=1-induction_step:_datagram_of_any_length_<=_256;_assembler_in_any_state_of_0..=3_recorded_ranges_(API_prefix);_fragment_of_24_bytes_at_any_8-aligned_offset,_consistent_with_the_datagram
     #[kani::proof]
-    pub(crate) fn ipv4_reasm_x4() {
-        reasm_step::<8, 4, 4>();
+    pub(crate) fn ipv4_reasm_step_24_n03() {
+        reasm_step::<24, 0, 3>();
     }
 
-    // @harness props=C12 cfg=KI4 tier=q to=900 mem=8 unwind=12 opts=nomem covers=3 funcs=x bounds=experiment
+    // @harness props=C12 cfg=KI4 tier=q to=900 mem=8 unwind=12 opts=nomem covers=3 funcs=PacketAssembler::set_total_size;PacketAssembler::add;PacketAssembler::assemble;PacketAssembler::is_complete;PacketAssembler::reset;Assembler::add;Assembler::peek_front bounds=1-induction_step:_datagram_of_any_length_<=_256;_assembler_in_any_state_of_4_recorded_ranges_(assembler_full:_ASSEMBLER_MAX_SEGMENT_COUNT=4)_(API_prefix);_fragment_of_24_bytes_at_any_8-aligned_offset,_consistent_with_the_datagram
     #[kani::proof]
-    pub(crate) fn ipv4_reasm_x5() {
-        reasm_step::<8, 0, 3>();
+    pub(crate) fn ipv4_reasm_step_24_full() {
+        reasm_step::<24, 4, 4>();
+    }
+
+    // @harness props=C12 cfg=KI4 tier=q to=900 mem=8 unwind=12 opts=nomem covers=3 funcs=PacketAssembler::set_total_size;PacketAssembler::add;PacketAssembler::assemble;PacketAssembler::is_complete;PacketAssembler::reset;Assembler::add;Assembler::peek_front bounds=1-induction_step:_datagram_of_any_length_<=_256;_assembler_in_any_state_of_0..=3_recorded_ranges_(API_prefix);_last_fragment_of_3_bytes_at_any_8-aligned_offset,_consistent_with_the_datagram
+    #[kani::proof]
+    pub(crate) fn ipv4_reasm_step_3_n03() {
+        reasm_step::<3, 0, 3>();
+    }
+
+    // @harness props=C12 cfg=KI4 tier=q to=900 mem=8 unwind=12 opts=nomem covers=3 funcs=PacketAssembler::set_total_size;PacketAssembler::add;PacketAssembler::assemble;PacketAssembler::is_complete;PacketAssembler::reset;Assembler::add;Assembler::peek_front bounds=1-induction_step:_datagram_of_any_length_<=_256;_assembler_in_any_state_of_4_recorded_ranges_(assembler_full:_ASSEMBLER_MAX_SEGMENT_COUNT=4)_(API_prefix);_last_fragment_of_3_bytes_at_any_8-aligned_offset,_consistent_with_the_datagram
+    #[kani::proof]
+    pub(crate) fn ipv4_reasm_step_3_full() {
+        reasm_step::<3, 4, 4>();
     }
 
     // Liveness: the datagram g[0..t) lacks nothing but (part of) this fragment -- [0,a) and [b,t) are recorded,
